@@ -57,6 +57,9 @@ func (o Options) List() []midi.Option {
 		l = append(l, midi.SysExBufferSize(o.BufSize))
 	}
 	if o.Reversed {
+		// every other listener also has an error handler (an option that must
+		// not change what is delivered)
+		l = append(l, midi.HandleError(func(error) {}))
 		for i, j := 0, len(l)-1; i < j; i, j = i+1, j-1 {
 			l[i], l[j] = l[j], l[i]
 		}
